@@ -338,4 +338,5 @@ def num_eq(cxx: str, lean_num: str) -> bool:
     if len(a) != len(b):
         return False
     # the Lean driver prints doubles with 6 decimals (C's %f): equal up to that rendering
-    return all((x == y) or (x != x and y != y) or abs(x - y) <= 6e-7 + 1e-9 * max(abs(x), abs(y)) for x, y in zip(a, b))
+    # … and a `float`-typed accessor makes <cmath> compute in single precision (std::exp(float) is float): relative 3e-6
+    return all((x == y) or (x != x and y != y) or abs(x - y) <= 6e-7 + 3e-6 * max(abs(x), abs(y)) for x, y in zip(a, b))
